@@ -515,6 +515,19 @@ func (r *Run) opAuthorizePAR(st Step) {
 	}
 	q.Set("client_id", cs.ID)
 	q.Set("request_uri", uri)
+	if st.p("inline") != "" {
+		// a complete inline authorization request next to the (unknown / foreign) request_uri
+		q.Set("response_type", "code")
+		q.Set("scope", "photos")
+		q.Set("state", fmt.Sprintf("istate-%04d-abcdefgh", r.Idx))
+		if len(cs.RedirectURIs) > 0 {
+			q.Set("redirect_uri", cs.RedirectURIs[0])
+		}
+	}
+	if st.V == "foreign_prefix" && r.W.K.DocPARPrefix() == "urn:example:other-prefix:" {
+		uri = "urn:example:yet-another-prefix:" + fmt.Sprint(r.Idx)
+		q.Set("request_uri", uri)
+	}
 	// conflicting parameters sent alongside
 	conflicts := []string{}
 	for _, k := range []string{"scope", "state", "response_type", "response_mode", "audience", "nonce", "code_challenge", "code_challenge_method", "prompt"} {
@@ -554,11 +567,14 @@ func (r *Run) opAuthorizePAR(st Step) {
 		return
 	}
 	if pc == nil {
-		if started {
-			r.violate("C17", "unknown-request-uri-started-authorization", st.V, "%s: an authorization started from a request_uri the server never issued", desc)
-		}
+		r.probe("par-" + st.V + "-uri")
 		if st.V == "foreign_prefix" && !r.W.K.PAREnforced {
-			return // treated as an ordinary (OIDC request_uri) parameter
+			return // without enforcement a request_uri outside the configured prefix is an ordinary (OpenID Connect) parameter
+		}
+		if started {
+			// own prefix but never issued: never valid. Foreign prefix under enforcement: "authorization requests without a valid
+			// request_uri are refused", whatever else the request carries inline
+			r.violate("C17", "unknown-request-uri-started-authorization", st.V+t3(r.W.K.PAREnforced, ":enforced", ""), "%s: an authorization started from a request_uri the server never issued (pushing enforced: %v, inline parameters: %v)", desc, r.W.K.PAREnforced, st.p("inline") != "")
 		}
 		if res.Redirect != nil || res.FormPost != nil {
 			owner := cs
@@ -637,7 +653,7 @@ func (r *Run) opAuthorizePAR(st Step) {
 		}
 	}
 	pq.Set("client_id", pc.Client)
-	stp := Step{Op: "authz", P: map[string]string{"scope": pq.Get("scope"), "mode": pq.Get("response_mode")}}
+	stp := Step{Op: "authz", P: map[string]string{"scope": pq.Get("scope"), "mode": pq.Get("response_mode"), "via_par": "1"}}
 	g := r.afterAuthorize(stp, owner, res, pq, con, pc.Extra["_challenge"], pc.Extra["_method"], pc.Extra["_verifier"])
 	if g == nil {
 		return
